@@ -57,7 +57,7 @@ func observeOracle(env *Env) V {
 	return L(U(epoch), prices, holders, L(pv...), L(hv...))
 }
 
-func runOracleCase(seed uint64, nOps int, stats map[string]int) (V, V) {
+func runOracleCase(seed uint64, nOps int, restart bool, stats map[string]int) (V, V) {
 	rng := &Rng{s: seed}
 	tokens := []*types.TokenInfo{{Id: 1, Denom: "hub", ChainId: "minter", ExternalTokenId: "1", ExternalDecimals: 18, Commission: sdk.ZeroDec()}}
 	if rng.Chance(1, 2) {
@@ -216,6 +216,13 @@ func runOracleCase(seed uint64, nOps int, stats map[string]int) (V, V) {
 			}
 			setVals()
 		}
+	}
+	if restart {
+		code, m := outcome(func() error { env.Restart(); return nil })
+		if code != 0 && os.Getenv("VERIF_DEBUG") != "" {
+			fmt.Fprintln(os.Stderr, "restart:", m)
+		}
+		record(L(I(5)), code)
 	}
 	return L(L(reqV...), L(ops...)), L(outs...)
 }
